@@ -7,6 +7,7 @@ import Mfi.Model.Bank
 import Mfi.Lemmas.FxL
 import Mfi.Lemmas.ResL
 import Mfi.Lemmas.BankL
+import Mfi.Lemmas.SkelL
 
 namespace Mfi.Props.C17
 open Mfi Mfi.Fx Mfi.Bank Mfi.Gen
@@ -221,5 +222,16 @@ theorem capacity_deposit_never_exceeds {b : Bank} {c d s : Int}
           cases hfail
       · simp only [hspos, decide_false, Bool.false_and, Bool.false_eq_true, ↓reduceIte] at hfail
         cases hfail
+
+
+open Mfi.Gen.Skel in
+/-- **capacity_after_accrual** (over the skeleton regenerated from deposit.rs): the remaining
+    capacity used for "deposit up to limit" is computed AFTER `accrue_interest` and before the
+    wrapper deposit — so `capacity_deposit_never_exceeds` applies to the state the deposit is
+    applied to. (True since `fix: accrue interest before computing the remaining deposit
+    capacity`; before it the order was capacity, accrue — replayed by the instruction-level monitor.) -/
+theorem capacity_after_accrual :
+    occursBefore deposit (isAccrue .bank) (· == .capacity) = true ∧
+    occursBefore deposit (· == .capacity) isOp = true := by decide
 
 end Mfi.Props.C17
